@@ -37,3 +37,17 @@ func init() {
 		c23Parallel(c, p)
 	})
 }
+
+// C32 (every applied block passes validation) includes "a last commit signed by
+// more than two thirds of the previous validator set": ValidateBlock delegates
+// that clause to ValidatorSet.VerifyCommit, whose tally/verdict rules are
+// decided by C36's check. An independently seeded C32 change (counting validly
+// signed precommits for any non-nil block toward the quorum) is caught by
+// exactly those rules, so they run as part of C32 too.
+func init() {
+	extend("C32", func(c *engine.Ctx) {
+		ex := c.Explain
+		c36(c)
+		c.Explain = ex + " Also runs C36's commit-verification rules (preconditions, guarded-tally, verdict) on ValidatorSet.VerifyCommit, to which ValidateBlock delegates the '+2/3 signed' clause."
+	})
+}
